@@ -42,7 +42,7 @@ class Worker:
             return None, f"died rc={rc}"
         fd = self.p.stdout.fileno()
         deadline = time.time() + timeout
-        buf = b""
+        chunks = []
         while True:
             left = deadline - time.time()
             if left <= 0:
@@ -51,13 +51,15 @@ class Worker:
             r, _, _ = select.select([fd], [], [], left)
             if not r:
                 continue
-            chunk = os.read(fd, 1 << 20)
+            # 64 KiB reads: a 1 MiB read allocates and shrinks a 1 MiB bytes object per reply
+            chunk = os.read(fd, 65536)
             if not chunk:
                 rc = self.p.wait()
                 self.start()
                 return None, f"died rc={rc}"
-            buf += chunk
-            if buf.endswith(b"\n"):
+            chunks.append(chunk)
+            if chunk.endswith(b"\n"):
+                buf = b"".join(chunks)
                 try:
                     return json.loads(buf.decode()), None
                 except ValueError as e:
